@@ -27,14 +27,15 @@ Fixpoint ordered (prev_seq prev_ts : Z) (l : list hres) : bool :=
   end.
 
 Definition check_c05 : rd verdict :=
-  rs <- getlist gethres ;;
+  rs <- getlist gethres ;; refused <- getz ;;
   let sorted := sort_by_seq rs in
   ret (combine_verdicts
     [ prop_ok 1 (ordered (-1) 0 sorted) [Z.of_nat (length rs)];
       prop_ok 2 (forallb (fun r => 0 <=? h_ts r) rs) [];
       prop_ok 3 (forallb (fun r => h_ts r <=? h_entry r) rs) [];
       prop_ok 4 (forallb (fun r => (0 <=? h_lat r) && (h_tdur r <=? h_lat r)) rs) [];
-      prop_ok 5 (forallb (fun r => h_entry r + h_tdur r <=? h_ts r + h_lat r) rs) [] ]).
+      prop_ok 5 (forallb (fun r => h_entry r + h_tdur r <=? h_ts r + h_lat r) rs) [];
+      prop_ok 6 (refused =? 0) [refused] ]).
 
 (* ---- C15 ---- *)
 (* stream targeter: calls by concurrent goroutines: (start stamp, end stamp, outcome):
